@@ -1025,6 +1025,12 @@ def cssh_cmd(h):
     return hx(SshRecordInit(SshUnimplementedMessage(int.from_bytes(payload[1:], 'big'))).compose())
 
 
+def sts_cmd(h):
+    from cryptoparser.httpx.header import HttpHeaderFieldValueSTS
+    o = HttpHeaderFieldValueSTS.parse_exact_size(bytes.fromhex('' if h == '-' else h))
+    return '%d %d %d' % (o.max_age.value.days * 86400 + o.max_age.value.seconds, int(o.include_subdomains.value), int(o.preload.value))
+
+
 def hline_cmd(strict, h):
     from cryptoparser.httpx.header import HttpHeaderFieldUnparsed, HttpHeaderFieldServer
     data = bytes.fromhex('' if h == '-' else h)
@@ -1053,7 +1059,7 @@ def banner_dec(h):
 
 COMMANDS = {
     'bannerenc': banner_enc, 'bannerdec': banner_dec,
-    'nvl': nvl_cmd, 'fvm': fvm_cmd, 'hline': hline_cmd, 'pssl2': pssl2_cmd, 'cssl2': cssl2_cmd, 'pssh': pssh_cmd, 'cssh': cssh_cmd,
+    'nvl': nvl_cmd, 'fvm': fvm_cmd, 'hline': hline_cmd, 'pssl2': pssl2_cmd, 'cssl2': cssl2_cmd, 'pssh': pssh_cmd, 'cssh': cssh_cmd, 'sts': sts_cmd,
     'tpktenc': tpkt_enc, 'cotpenc': cotp_enc, 'pcotp': p_cotp, 'rdpnegenc': rdp_neg_enc, 'mysqlpktenc': mysql_pkt_enc,
     'mysqlssl41': mysql_ssl41, 'mysqlhs': mysql_hs, 'mysqlssl320': mysql_ssl320, 'ovpnctl': ovpn_ctl, 'ovpntcp': ovpn_tcp, 'pgssl': pg_ssl,
     'sshpad': ssh_pad, 'mpintspec': mpint_spec, 'kexenc': kex_enc, 'kexdec': kex_dec,
